@@ -38,6 +38,14 @@ def apply(m, d):
         s2 = s2.replace(o, nn)
     open(p, "w", encoding="utf-8").write(s2)
     diff = "".join(difflib.unified_diff(s.splitlines(True), s2.splitlines(True), "a/" + m["file"], "b/" + m["file"]))
+    for e in m.get("edits") or []:
+        pe = os.path.join(d, e["file"])
+        se = open(pe, encoding="utf-8").read()
+        if se.count(e["old"]) != 1:
+            return f"EDIT PATTERN COUNT {se.count(e['old'])} in {e['file']}"
+        se2 = se.replace(e["old"], e["new"])
+        open(pe, "w", encoding="utf-8").write(se2)
+        diff += "".join(difflib.unified_diff(se.splitlines(True), se2.splitlines(True), "a/" + e["file"], "b/" + e["file"]))
     os.makedirs(os.path.join(ROOT, "mutants", "patches"), exist_ok=True)
     open(os.path.join(ROOT, "mutants", "patches", m["id"] + ".patch"), "w", encoding="utf-8").write(diff)
     return None
